@@ -200,6 +200,86 @@ class TransitionsJ(Contract):
     loops = {0: inv_jumps, 1: inv_range}
 
 
+class DeltaEJ(Contract):
+    """deltaE_trial(occsite, unoccsite) of the compiled sampler: the returned trial energy equals
+         esum(G, Nenergy) - esum(clustercount, Nenergy),   G[n] = clustercount[n] - mult(occsite, n) + mult(unoccsite, n)   (n < Nenergy)
+    i.e. the energy of the counts the move would produce minus the present energy (the same ghost functions as E() and update()).
+    The early `break` at the first interaction index >= Nenergy is justified by the table invariant "rows of siteinteract are
+    non-decreasing" (established by the constructor: run-time checked) and a lemma proved by induction: multiplicities do not
+    change over a stretch of a row that does not contain the index."""
+    relpath, qualname = 'onsager/cluster.py', 'MonteCarloSampler_jit.deltaE_trial'
+    self_shape = dict(SELF, dcluster='seq_int')
+    params = {'occsite': 'int', 'unoccsite': 'int'}
+    modifies = ('dcluster',)
+    local_sorts = {'dE': 'real'}
+    min_obligations = 12
+
+    @staticmethod
+    def rows_sorted(s):
+        si, NI = s.siteinteract, s.Ninteract
+        return forall(0, s.Nsites, lambda i: forall2(0, NI[i], lambda a: a, lambda a: NI[i], lambda a, b: si.at(i, a) <= si.at(i, b), 'srt'), 'srt_i')
+
+    def pre(self, s):
+        z = s.self; o, u = s.v['occsite'], s.v['unoccsite']
+        return And(static_ok(z), z.dcluster.len == z.Nenergy, o >= 0, o < z.Nsites, u >= 0, u < z.Nsites, lambda: DeltaEJ.rows_sorted(z))
+
+    # lemma: forall i, n, a, b: a <= b and no entry of row i in [a, b) equals n  ==>  mult(i, n, b) == mult(i, n, a)
+    @staticmethod
+    def _lemma(s):
+        si = s.self.siteinteract.data
+        i, n, a, b, j = z3.Ints('dl_i dl_n dl_a dl_b dl_j')
+        def stmt(bb):
+            return z3.Implies(z3.And(a <= bb, z3.ForAll([j], z3.Implies(z3.And(j >= a, j < bb), z3.Select(z3.Select(si, i), j) != n))),
+                              M_rec(si, i, n, bb) == M_rec(si, i, n, a))
+        return si, i, n, a, b, stmt
+
+    def lemma_obligations(self, s):
+        si, i, n, a, b, stmt = self._lemma(s)
+        return [('multiplicity-constant-over-a-stretch-without-the-index:base', [b == a], stmt(b)),
+                ('multiplicity-constant-over-a-stretch-without-the-index:step', [b >= a, stmt(b)], stmt(b + 1))]
+
+    def facts(self, s):
+        if BOUND[0] is not None: return []
+        si, i, n, a, b, stmt = self._lemma(s)
+        return [z3.ForAll([i, n, a, b], stmt(b), patterns=[z3.MultiPattern(M_rec(si, i, n, b), M_rec(si, i, n, a))])]
+
+    def inv_o(cur, k, old):
+        z = cur.self; o = old.v['occsite']; si = z.siteinteract
+        return {'len': z.dcluster.len == z.Nenergy,
+                'counts-of-the-site-to-occupy': forall(0, z.Nenergy, lambda n: z.dcluster[n] == mult(si, o, n, k)),
+                'no-index-beyond-the-energy-block-so-far': forall(0, k, lambda j: si.at(o, j) < z.Nenergy)}
+
+    def inv_u(cur, k, old):
+        z = cur.self; o, u = old.v['occsite'], old.v['unoccsite']; si, NI = z.siteinteract, z.Ninteract
+        return {'len': z.dcluster.len == z.Nenergy,
+                'counts-difference': forall(0, z.Nenergy, lambda n: z.dcluster[n] == mult(si, o, n, NI[o]) - mult(si, u, n, k)),
+                'no-index-beyond-the-energy-block-so-far': forall(0, k, lambda j: si.at(u, j) < z.Nenergy)}
+
+    @staticmethod
+    def G_def(z, o, u):
+        si, NI = z.siteinteract, z.Ninteract
+        return lambda n: z.clustercount[n] - (mult(si, o, n, NI[o]) - mult(si, u, n, NI[u]))
+
+    loop_ghost_init = {2: lambda cur, old: {'g_cc2': (cur.self.clustercount.len, DeltaEJ.G_def(old.self, old.v['occsite'], old.v['unoccsite']))}}
+
+    def inv_e(cur, k, old):
+        z = old.self; G = cur.v['g_cc2']
+        return {'dcluster-is-the-count-change': forall(0, z.Nenergy, lambda n: cur.self.dcluster[n] == z.clustercount[n] - G[n]),
+                'partial-energy-difference': cur.v['dE'] == esum(G, z.interactvalue, k) - esum(z.clustercount, z.interactvalue, k)}
+
+    loops = {0: inv_o, 1: inv_u, 2: inv_e}
+
+    def post(self, old, new, result):
+        z = old.self; o, u = old.v['occsite'], old.v['unoccsite']
+        if SYMBOLIC[0]:
+            G = new.v['g_cc2']
+            return {'trial-energy-is-energy-after-minus-energy-before': result == esum(G, z.interactvalue, z.Nenergy) - esum(z.clustercount, z.interactvalue, z.Nenergy),
+                    'where-G-is-the-count-the-move-produces': forall(0, z.Nenergy, lambda n: G[n] == DeltaEJ.G_def(z, o, u)(n))}
+        G = CSeq([DeltaEJ.G_def(z, o, u)(n) for n in range(z.clustercount.len)])
+        want = esum(G, z.interactvalue, z.Nenergy) - esum(z.clustercount, z.interactvalue, z.Nenergy)
+        return {'trial-energy-is-energy-after-minus-energy-before': abs(result - want) <= 1e-12 * (1 + abs(want))}
+
+
 # ---------------------------------------------------------------------------------------------
 # concrete side: real numba objects
 import itertools
@@ -265,3 +345,22 @@ class TransitionsJC(_JitConcrete, TransitionsJ):
             ij, ir = self.jumps(rng, L, len(vals), Ne)
             for occ in itertools.product((-1, 0, 1), repeat=L):
                 yield make_jit(rows, NI, vals, Ne, occ, ij, ir), ()
+
+
+class DeltaEJC(_JitConcrete, DeltaEJ):
+    def build(self, conc):
+        z = conc.self; L = z.Nsites
+        if not (1 <= L <= 4) or z.interactvalue.len > 6: return None, None
+        NI = [z.Ninteract[i] for i in range(L)]
+        rows = [list(z.siteinteract.xss[i][:NI[i]]) for i in range(L)]
+        j = make_jit(rows, NI, list(z.interactvalue.xs), z.Nenergy)
+        j.clustercount[:] = np.array(z.clustercount.xs, dtype=np.int64)
+        return j, (int(conc.v['occsite']), int(conc.v['unoccsite']))
+
+    def concrete_states(self, rng, tier):
+        for rows, NI, vals, Ne in self.tables(rng, tier):
+            L = len(rows)
+            for occ in itertools.product((0, 1), repeat=L):
+                for o in range(L):
+                    for u in range(L):
+                        yield make_jit(rows, NI, vals, Ne, occ), (o, u)
